@@ -1,8 +1,734 @@
-//! C13 - not built yet
+//! C13 - session and link lifecycles: begin/end and attach/detach handshakes complete.
+//!
+//! History search: real client Session + Sender/Receiver against the scripted peer over every history
+//! of local calls and peer behaviour, judged by per-channel and per-handle trace automata and by the
+//! results of the local calls.
+use crate::scen;
+use fe2o3_amqp::link::{DetachError, Receiver, Sender};
+use fe2o3_amqp::session::{Error as SessError, SessionHandle};
+use fe2o3_amqp::Session;
+use fe2o3_amqp_types::definitions::{self, AmqpError, Handle, SenderSettleMode};
+use fe2o3_amqp_types::messaging::Message;
+use fe2o3_amqp_types::performatives::*;
+use serde_json::json;
+use std::sync::Arc;
+use std::time::{Duration, Instant};
+use vlib::history::{search, HistOut};
+use vlib::peer::{amqp_error, drive, settle, trace_to_strings, Auto, Body, Dirn, WFrame};
 use vlib::report::{Ctx, Outcome};
+use vlib::runner::{run_exec, RunCfg, Scenario};
+use vlib::util::h64;
 
-pub fn run(_ctx: &Ctx) -> Outcome {
+#[derive(Debug, Clone, Copy, PartialEq, Eq, Hash)]
+pub enum Ev {
+    LAttachS,
+    LSend,
+    LSendsEnd,
+    LSendsEndErr,
+    LSendsDropSession,
+    LSendsDropLink,
+    LDetachS,
+    LCloseS,
+    LDropS,
+    LEnd,
+    LEndErr,
+    LDropSession,
+    PDetach,
+    PDetachErr,
+    PDetachOpen,
+    PEnd,
+    PEndErr,
+    PWithholdDetach,
+    PWithholdEnd,
+    PRefuseAttach,
+    PTransferUnattached,
+    LAttachR,
+    LCloseR,
+}
+pub const ALPHABET: [Ev; 23] = [
+    Ev::LAttachS,
+    Ev::LSend,
+    Ev::LCloseS,
+    Ev::PDetach,
+    Ev::LEnd,
+    Ev::PEnd,
+    Ev::LSendsEnd,
+    Ev::LSendsEndErr,
+    Ev::LSendsDropSession,
+    Ev::LSendsDropLink,
+    Ev::LDetachS,
+    Ev::LDropS,
+    Ev::LEndErr,
+    Ev::LDropSession,
+    Ev::PDetachErr,
+    Ev::PDetachOpen,
+    Ev::PEndErr,
+    Ev::PWithholdDetach,
+    Ev::PWithholdEnd,
+    Ev::PRefuseAttach,
+    Ev::PTransferUnattached,
+    Ev::LAttachR,
+    Ev::LCloseR,
+];
+
+#[derive(Debug, Clone, Default)]
+pub struct Obs {
+    pub executed: usize,
+    pub fails: Vec<(String, String)>,
+    pub state_keys: Vec<u64>,
+    pub trace: Vec<String>,
+    pub machinery: Option<String>,
+    pub pending_calls: usize,
+    pub flush_checks: usize,
+}
+
+fn peer_err(tag: &str) -> definitions::Error {
+    amqp_error(AmqpError::NotAllowed, tag)
+}
+
+/// safety automata over everything the library wrote on `channel`
+pub fn judge_channel(trace: &[WFrame], channel: u16) -> Vec<(String, String)> {
+    let mut f = vec![];
+    let mut begins = 0;
+    let mut ends = 0;
+    let mut after_end = 0;
+    // per handle: attached?, detaches since last attach
+    let mut attached: std::collections::BTreeMap<u32, bool> = Default::default();
+    for w in trace.iter().filter(|w| w.dir == Dirn::FromLib && w.channel == channel) {
+        let Body::Perf(p) = &w.body else { continue };
+        if matches!(p, Performative::Open(_) | Performative::Close(_)) {
+            continue;
+        }
+        if ends > 0 {
+            after_end += 1;
+        }
+        match p {
+            Performative::Begin(_) => begins += 1,
+            Performative::End(_) => ends += 1,
+            Performative::Attach(a) => {
+                if attached.get(&a.handle.0) == Some(&true) {
+                    f.push(("attach-on-attached-handle".to_string(), format!("a second attach on handle {} while it is attached", a.handle.0)));
+                }
+                attached.insert(a.handle.0, true);
+            }
+            Performative::Detach(d) => {
+                if attached.get(&d.handle.0) != Some(&true) {
+                    f.push((
+                        "second-detach".to_string(),
+                        format!("a detach for handle {} that is not attached (more than one detach for one attach)", d.handle.0),
+                    ));
+                }
+                attached.insert(d.handle.0, false);
+            }
+            Performative::Transfer(t) => {
+                if attached.get(&t.handle.0) != Some(&true) {
+                    f.push(("frame-after-detach".to_string(), format!("a transfer for handle {} after its detach / before its attach", t.handle.0)));
+                }
+            }
+            Performative::Flow(fl) => {
+                if let Some(h) = &fl.handle {
+                    if attached.get(&h.0) != Some(&true) {
+                        f.push(("frame-after-detach".to_string(), format!("a flow for handle {} after its detach / before its attach", h.0)));
+                    }
+                }
+            }
+            _ => {}
+        }
+    }
+    if begins > 1 {
+        f.push(("begin-twice".to_string(), format!("{begins} begin frames on channel {channel}")));
+    }
+    if ends > 1 {
+        f.push(("end-twice".to_string(), format!("{ends} end frames on channel {channel}")));
+    }
+    if after_end > 0 {
+        f.push(("frame-after-end".to_string(), format!("{after_end} frame(s) on channel {channel} after the end")));
+    }
+    f
+}
+
+fn lib_frames<'a>(trace: &'a [WFrame], from: usize) -> impl Iterator<Item = &'a WFrame> {
+    trace[from..].iter().filter(|w| w.dir == Dirn::FromLib)
+}
+fn lib_end(trace: &[WFrame]) -> Option<Option<definitions::Error>> {
+    trace.iter().find_map(|w| match (&w.body, w.dir) {
+        (Body::Perf(Performative::End(e)), Dirn::FromLib) => Some(e.error.clone()),
+        _ => None,
+    })
+}
+fn lib_close_frame(trace: &[WFrame]) -> bool {
+    trace.iter().any(|w| matches!((&w.body, w.dir), (Body::Perf(Performative::Close(_)), Dirn::FromLib)))
+}
+fn lib_detach(trace: &[WFrame], from: usize, handle: u32) -> Option<Detach> {
+    lib_frames(trace, from).find_map(|w| match &w.body {
+        Body::Perf(Performative::Detach(d)) if d.handle.0 == handle => Some(d.clone()),
+        _ => None,
+    })
+}
+
+pub async fn scenario(events: Vec<Ev>) -> Obs {
+    let mut obs = Obs::default();
+    let mut auto = Auto::default();
+    auto.max_frame_size = 4096;
+    auto.grant_credit = Some(1000);
+    auto.accept_transfers = true;
+    let mut c = match scen::open_client(auto, 4096).await {
+        Ok(c) => c,
+        Err(e) => {
+            obs.machinery = Some(e);
+            return obs;
+        }
+    };
+    let mut session: Option<SessionHandle<()>> = match scen::begin(&mut c, Session::builder()).await {
+        Ok(s) => Some(s),
+        Err(e) => {
+            obs.machinery = Some(e);
+            return obs;
+        }
+    };
+    let h = Duration::from_secs(3);
+    let mut sender: Option<Sender> = None;
+    let mut receiver: Option<Receiver> = None;
+    let mut snd_handle: Option<u32> = None; // lib's handle while attached
+    let mut rcv_handle: Option<u32> = None;
+    let mut session_over = false; // local end/drop done or peer ended
+    let mut peer_ended: Option<Option<definitions::Error>> = None;
+    // a peer detach on the sender that the application has not yet had a chance to answer
+    let mut peer_detached_s: Option<(bool, Option<definitions::Error>, usize)> = None;
+    let mut refuse_next_attach = false;
+    let mut sent_msgs = 0usize;
+    let mut call_results: Vec<String> = vec![];
+    obs.state_keys.push(h64(&0u8));
+    for (i, ev) in events.iter().enumerate() {
+        let sess_alive = session.is_some() && !session_over;
+        let enabled = match ev {
+            Ev::LAttachS => sess_alive && sender.is_none(),
+            Ev::LAttachR => sess_alive && receiver.is_none(),
+            Ev::LSend | Ev::LDetachS | Ev::LCloseS | Ev::LDropS | Ev::LSendsDropLink => sender.is_some(),
+            Ev::LSendsEnd | Ev::LSendsEndErr | Ev::LSendsDropSession => sender.is_some() && sess_alive && peer_detached_s.is_none(),
+            Ev::LCloseR => receiver.is_some(),
+            Ev::LEnd | Ev::LEndErr | Ev::LDropSession => sess_alive,
+            Ev::PDetach | Ev::PDetachErr | Ev::PDetachOpen => snd_handle.is_some() && peer_detached_s.is_none() && peer_ended.is_none() && !session_over,
+            Ev::PEnd | Ev::PEndErr => peer_ended.is_none() && !session_over,
+            Ev::PWithholdDetach => c.peer.auto.detach && peer_ended.is_none(),
+            Ev::PWithholdEnd => c.peer.auto.end && peer_ended.is_none(),
+            Ev::PRefuseAttach => !refuse_next_attach && peer_ended.is_none() && !session_over,
+            Ev::PTransferUnattached => peer_ended.is_none() && !session_over,
+        };
+        if !enabled {
+            break;
+        }
+        let mark = c.peer.trace.len();
+        let mut sends_before_teardown = 0usize;
+        // (peer's detach was closing, trace index after it, library handle, operation): the application has
+        // operated on the link, so the peer's detach must have been answered in kind by the next quiescence
+        let mut answer_due: Option<(bool, usize, u32, &str)> = None;
+        match ev {
+            Ev::LAttachS | Ev::LAttachR => {
+                let is_s = *ev == Ev::LAttachS;
+                if refuse_next_attach {
+                    c.peer.auto.attach = false;
+                }
+                let sess = session.as_mut().unwrap();
+                // drive by hand so that a refusing peer can answer attach + detach
+                let r = {
+                    let peer = &mut c.peer;
+                    if is_s {
+                        let fut = Sender::builder().name("s").target("q").sender_settle_mode(SenderSettleMode::Settled).attach(sess);
+                        tokio::pin!(fut);
+                        let mut out = None;
+                        let start = tokio::time::Instant::now();
+                        loop {
+                            tokio::select! { biased;
+                                r = &mut fut => { out = Some(r.map(|s| { sender = Some(s); }).map_err(|e| e.to_string())); break; }
+                                _ = tokio::time::sleep(Duration::from_millis(1)) => {
+                                    let new = peer.pump();
+                                    refuse_if_needed(peer, &new, refuse_next_attach);
+                                    if start.elapsed() > h { break; }
+                                }
+                            }
+                        }
+                        out
+                    } else {
+                        let fut = Receiver::builder().name("r").source("q").attach(sess);
+                        tokio::pin!(fut);
+                        let mut out = None;
+                        let start = tokio::time::Instant::now();
+                        loop {
+                            tokio::select! { biased;
+                                r = &mut fut => { out = Some(r.map(|s| { receiver = Some(s); }).map_err(|e| e.to_string())); break; }
+                                _ = tokio::time::sleep(Duration::from_millis(1)) => {
+                                    let new = peer.pump();
+                                    refuse_if_needed(peer, &new, refuse_next_attach);
+                                    if start.elapsed() > h { break; }
+                                }
+                            }
+                        }
+                        out
+                    }
+                };
+                let was_refused = refuse_next_attach;
+                if refuse_next_attach {
+                    c.peer.auto.attach = true;
+                    refuse_next_attach = false;
+                }
+                let lh = c.peer.trace[mark..].iter().find_map(|w| match (&w.body, w.dir) {
+                    (Body::Perf(Performative::Attach(a)), Dirn::FromLib) => Some(a.handle.0),
+                    _ => None,
+                });
+                match r {
+                    Some(Ok(())) => {
+                        if was_refused {
+                            obs.fails.push(("refused-attach-succeeded".into(), "the peer refused the attach (attach followed by a closing detach with error) but attach() returned Ok".into()));
+                        }
+                        if is_s {
+                            snd_handle = lh;
+                        } else {
+                            rcv_handle = lh;
+                        }
+                    }
+                    Some(Err(_)) => {}
+                    None => {
+                        if peer_ended.is_none() {
+                            obs.fails.push(("attach-hangs".into(), format!("attach() did not return within {:?} although the peer answered", h)));
+                        }
+                    }
+                }
+            }
+            Ev::LSend => {
+                let s = sender.as_mut().unwrap();
+                let r = drive(&mut c.peer, s.send(Message::builder().value(sent_msgs as u32).build()), h).await;
+                sent_msgs += 1;
+                if let (Some((peer_closed, _, at)), Some(hd)) = (&peer_detached_s, snd_handle) {
+                    answer_due = Some((*peer_closed, *at, hd, "send"));
+                }
+                match r {
+                    Some(_) => {}
+                    None => {
+                        if peer_detached_s.is_some() || peer_ended.is_some() {
+                            obs.fails.push(("send-hangs-after-remote-detach".into(), "send() never returned although the peer had detached the link / ended the session".into()));
+                        }
+                    }
+                }
+            }
+            Ev::LSendsEnd | Ev::LSendsEndErr | Ev::LSendsDropSession | Ev::LSendsDropLink => {
+                // three pre-settled sends queued back to back, then the teardown without letting the engines run
+                {
+                    let s = sender.as_mut().unwrap();
+                    for _ in 0..3 {
+                        let fut = s.send(Message::builder().value(format!("queued-{sent_msgs}")).build());
+                        // a settled send completes as soon as the transfer is handed to the session
+                        match tokio::time::timeout(Duration::from_millis(0), fut).await {
+                            Ok(Ok(_)) => sends_before_teardown += 1,
+                            _ => {}
+                        }
+                        sent_msgs += 1;
+                    }
+                }
+                match ev {
+                    Ev::LSendsEnd | Ev::LSendsEndErr => {
+                        let sess = session.as_mut().unwrap();
+                        let r = if *ev == Ev::LSendsEnd {
+                            drive(&mut c.peer, sess.end(), h).await
+                        } else {
+                            drive(&mut c.peer, sess.end_with_error(peer_err("local")), h).await
+                        };
+                        session_over = true;
+                        if r.is_none() && c.peer.auto.end {
+                            obs.fails.push(("end-hangs".into(), "end() did not return although the peer answered".into()));
+                        }
+                    }
+                    Ev::LSendsDropSession => {
+                        session = None;
+                        session_over = true;
+                    }
+                    _ => {
+                        sender = None;
+                    }
+                }
+            }
+            Ev::LDetachS | Ev::LCloseS | Ev::LDropS | Ev::LCloseR => {
+                let closing = !matches!(ev, Ev::LDetachS);
+                let answered_before = c.peer.auto.detach;
+                let (res, which): (Option<Result<(), DetachError>>, &str) = match ev {
+                    Ev::LDetachS => {
+                        let s = sender.take().unwrap();
+                        (drive(&mut c.peer, s.detach(), h).await.map(|r| r.map(|_| ()).map_err(|(_, e)| e)), "detach")
+                    }
+                    Ev::LCloseS => {
+                        let s = sender.take().unwrap();
+                        (drive(&mut c.peer, s.close(), h).await, "close")
+                    }
+                    Ev::LCloseR => {
+                        let r = receiver.take().unwrap();
+                        (drive(&mut c.peer, r.close(), h).await, "close")
+                    }
+                    _ => {
+                        sender = None;
+                        (Some(Ok(())), "drop")
+                    }
+                };
+                let is_sender = !matches!(ev, Ev::LCloseR);
+                let handle = if is_sender { snd_handle } else { rcv_handle };
+                call_results.push(format!("{which}() -> {:?}", res.as_ref().map(|r| r.as_ref().map_err(|e| e.to_string()))));
+                // what the peer's detach (answer or earlier, unanswered) carried
+                let peer_detach = c.peer.trace.iter().rev().find_map(|w| match (&w.body, w.dir) {
+                    (Body::Perf(Performative::Detach(d)), Dirn::FromPeer) => Some(d.clone()),
+                    _ => None,
+                });
+                if which != "drop" {
+                    match &res {
+                        None => {
+                            obs.pending_calls += 1;
+                            let peer_answered = c.peer.trace[mark..].iter().any(|w| w.dir == Dirn::FromPeer && matches!(&w.body, Body::Perf(Performative::Detach(_))))
+                                || (is_sender && peer_detached_s.is_some());
+                            if peer_answered {
+                                obs.fails.push((format!("{which}-hangs"), format!("{which}() did not return although the peer's detach had arrived")));
+                            }
+                        }
+                        Some(r) => {
+                            // returned: only after the peer's answer or a definite failure
+                            let peer_answer_seen = c.peer.trace.iter().any(|w| w.dir == Dirn::FromPeer && matches!(&w.body, Body::Perf(Performative::Detach(_))));
+                            if r.is_ok() && !peer_answer_seen && !answered_before && peer_ended.is_none() {
+                                obs.fails.push((
+                                    format!("{which}-returned-before-peer-answer"),
+                                    format!("{which}() returned Ok although the peer never sent its detach"),
+                                ));
+                            }
+                            if let (Ok(()), Some(d)) = (r, &peer_detach) {
+                                if let Some(e) = &d.error {
+                                    if is_sender && peer_detached_s.as_ref().map(|p| p.1.is_some()).unwrap_or(false) {
+                                        obs.fails.push((
+                                            format!("peer-detach-error-not-reported ({which})"),
+                                            format!("the peer detached with error {:?} but {which}() returned Ok", e.condition),
+                                        ));
+                                    }
+                                }
+                            }
+                            if let Err(e) = r {
+                                if let (DetachError::RemoteClosedWithError(got) | DetachError::RemoteDetachedWithError(got), Some(d)) = (e, &peer_detach) {
+                                    if d.error.as_ref().map(|x| &x.condition) != Some(&got.condition) {
+                                        obs.fails.push(("wrong-detach-error".into(), format!("{which}() reports {:?}, the peer sent {:?}", got.condition, d.error.as_ref().map(|x| &x.condition))));
+                                    }
+                                }
+                            }
+                        }
+                    }
+                }
+                // the application has now operated on the link: a pending peer detach must have been answered in kind
+                if is_sender {
+                    if let (Some((peer_closed, _, at)), Some(hd)) = (&peer_detached_s, handle) {
+                        answer_due = Some((*peer_closed, *at, hd, which));
+                    }
+                    peer_detached_s = None;
+                    snd_handle = None;
+                } else {
+                    rcv_handle = None;
+                }
+                let _ = closing;
+            }
+            Ev::LEnd | Ev::LEndErr => {
+                let answered_before = c.peer.auto.end;
+                let sess = session.as_mut().unwrap();
+                let r = if *ev == Ev::LEnd {
+                    drive(&mut c.peer, sess.end(), h).await
+                } else {
+                    drive(&mut c.peer, sess.end_with_error(peer_err("local")), h).await
+                };
+                match &r {
+                    None => {
+                        obs.pending_calls += 1;
+                        let peer_answered = c.peer.trace.iter().any(|w| w.dir == Dirn::FromPeer && matches!(&w.body, Body::Perf(Performative::End(_))));
+                        if peer_answered {
+                            obs.fails.push(("end-hangs".into(), "end() did not return although the peer's end had arrived".into()));
+                        }
+                    }
+                    Some(res) => {
+                        session_over = true;
+                        let pe = c.peer.trace.iter().find_map(|w| match (&w.body, w.dir) {
+                            (Body::Perf(Performative::End(e)), Dirn::FromPeer) => Some(e.error.clone()),
+                            _ => None,
+                        });
+                        if res.is_ok() && pe.is_none() && !answered_before {
+                            obs.fails.push(("end-returned-before-peer-answer".into(), "end() returned Ok although the peer never sent its end".into()));
+                        }
+                        match (res, &pe) {
+                            (Ok(()), Some(Some(e))) => obs.fails.push(("peer-end-error-not-reported".into(), format!("the peer ended with error {:?} but end() returned Ok", e.condition))),
+                            (Err(SessError::RemoteEndedWithError(got)), Some(Some(e))) if got.condition != e.condition => {
+                                obs.fails.push(("wrong-end-error".into(), format!("end() reports {:?}, the peer sent {:?}", got.condition, e.condition)))
+                            }
+                            (Err(e), Some(None)) if *ev == Ev::LEnd && !matches!(e, SessError::RemoteEnded) && peer_ended.is_none() => obs.fails.push((
+                                "clean-end-reported-as-error".into(),
+                                format!("both sides ended the session cleanly but end() returned {e}"),
+                            )),
+                            _ => {}
+                        }
+                    }
+                }
+                if r.is_none() {
+                    // the handle stays; the call was cancelled at its horizon
+                }
+            }
+            Ev::LDropSession => {
+                session = None;
+                session_over = true;
+            }
+            Ev::PDetach | Ev::PDetachErr | Ev::PDetachOpen => {
+                let our = c.peer.links.iter().find(|l| Some(l.lib_handle) == snd_handle && !l.detached).map(|l| l.our_handle).unwrap_or(0);
+                let (closed, err) = match ev {
+                    Ev::PDetach => (true, None),
+                    Ev::PDetachErr => (true, Some(peer_err("peer detach"))),
+                    _ => (false, None),
+                };
+                c.peer.send(0, Performative::Detach(Detach { handle: Handle(our), closed, error: err.clone() }));
+                peer_detached_s = Some((closed, err, c.peer.trace.len()));
+            }
+            Ev::PEnd | Ev::PEndErr => {
+                let err = if *ev == Ev::PEndErr { Some(peer_err("peer end")) } else { None };
+                c.peer.send(0, Performative::End(End { error: err.clone() }));
+                peer_ended = Some(err);
+            }
+            Ev::PWithholdDetach => c.peer.auto.detach = false,
+            Ev::PWithholdEnd => c.peer.auto.end = false,
+            Ev::PRefuseAttach => refuse_next_attach = true,
+            Ev::PTransferUnattached => {
+                let t = Transfer {
+                    handle: Handle(77),
+                    delivery_id: Some(0),
+                    delivery_tag: Some(serde_bytes::ByteBuf::from(vec![1])),
+                    message_format: Some(0),
+                    settled: Some(true),
+                    more: false,
+                    rcv_settle_mode: None,
+                    state: None,
+                    resume: false,
+                    aborted: false,
+                    batchable: false,
+                };
+                c.peer.send_perf(0, Performative::Transfer(t), &[0x00, 0x53, 0x77, 0x40]);
+            }
+        }
+        settle(&mut c.peer, 3).await;
+        obs.executed = i + 1;
+        // ---------------- obligations at this quiescent state
+        if let Some((peer_closed, at, hd, which)) = answer_due {
+            if peer_ended.is_none() {
+                match lib_detach(&c.peer.trace, at, hd) {
+                    None => obs.fails.push((
+                        format!("peer-detach-unanswered (after {which})"),
+                        format!("the peer detached the link; after the application's {which}() no detach was sent in answer"),
+                    )),
+                    Some(d) => {
+                        // a non-closing detach that crossed the peer's closing detach is completed by
+                        // re-attaching and closing (spec 2.6.6): accept any later closing detach
+                        let later_closing = lib_frames(&c.peer.trace, at).any(|w| matches!(&w.body, Body::Perf(Performative::Detach(x)) if x.closed));
+                        if peer_closed && !d.closed && !later_closing {
+                            obs.fails.push(("closing-detach-answered-non-closing".into(), "the peer's closing detach was only answered with a non-closing detach".into()));
+                        }
+                    }
+                }
+            }
+        }
+        // a transfer for an unattached handle is a protocol violation by the peer: the library may end the
+        // session with an error; from then on the session is over for this history
+        if *ev == Ev::PTransferUnattached && lib_end(&c.peer.trace).is_some() {
+            session_over = true;
+            if peer_ended.is_none() {
+                peer_ended = Some(None);
+            }
+        }
+        // a peer's end is always answered with an end
+        if peer_ended.is_some() && lib_end(&c.peer.trace).is_none() {
+            obs.fails.push(("peer-end-unanswered".into(), format!("the peer's end was not answered with an end at the next quiescent state (after {:?})", ev)));
+        }
+        // queued transfers are flushed before the end / detach of the teardown
+        if sends_before_teardown > 0 {
+            obs.flush_checks += 1;
+            let mut n = 0;
+            let mut torn = false;
+            for w in lib_frames(&c.peer.trace, mark) {
+                match &w.body {
+                    Body::Perf(Performative::Transfer(_)) if !torn => n += 1,
+                    Body::Perf(Performative::End(_)) => torn = true,
+                    Body::Perf(Performative::Detach(_)) if *ev == Ev::LSendsDropLink => torn = true,
+                    _ => {}
+                }
+            }
+            if n < sends_before_teardown && peer_ended.is_none() {
+                obs.fails.push((
+                    format!("queued-frames-not-flushed ({:?})", ev),
+                    format!("{sends_before_teardown} sends had completed before the teardown but only {n} transfers were written before the end/detach"),
+                ));
+            }
+        }
+        // dropping / detaching a link never ends the session; ending a session never closes the connection
+        if matches!(ev, Ev::LDetachS | Ev::LCloseS | Ev::LDropS | Ev::LSendsDropLink | Ev::LCloseR) && peer_ended.is_none() && !session_over {
+            if lib_frames(&c.peer.trace, mark).any(|w| matches!(&w.body, Body::Perf(Performative::End(_)))) {
+                obs.fails.push((format!("link-teardown-ended-session ({:?})", ev), "tearing down a link produced an end frame for the enclosing session".into()));
+            }
+        }
+        if lib_close_frame(&c.peer.trace) {
+            obs.fails.push((format!("session-or-link-teardown-closed-connection (after {:?})", ev), "a close frame was written although the connection handle was never closed".into()));
+        }
+        obs.fails.extend(judge_channel(&c.peer.trace, 0));
+        if session_over || peer_ended.is_some() {
+            // links die with their session
+            if peer_ended.is_some() {
+                peer_detached_s = None;
+            }
+        }
+        obs.state_keys.push(h64(&(
+            sender.is_some(),
+            receiver.is_some(),
+            session.is_some(),
+            session_over,
+            peer_ended.is_some(),
+            peer_detached_s.is_some(),
+            c.peer.auto.detach,
+            c.peer.auto.end,
+            refuse_next_attach,
+            lib_end(&c.peer.trace).is_some(),
+        )));
+    }
+    obs.fails.sort();
+    obs.fails.dedup();
+    obs.trace = trace_to_strings(&c.peer.trace);
+    obs.trace.push(format!("call results: {:?}", call_results));
+    drop(sender);
+    drop(receiver);
+    drop(session);
+    obs
+}
+
+/// a peer that refuses an attach answers it with its own attach immediately followed by a closing detach with an error
+fn refuse_if_needed(peer: &mut vlib::peer::Peer, new: &[WFrame], refuse: bool) {
+    if !refuse {
+        return;
+    }
+    for w in new {
+        if let Body::Perf(Performative::Attach(a)) = &w.body {
+            let our = a.handle.0;
+            let lib_is_sender = a.role == fe2o3_amqp_types::definitions::Role::Sender;
+            let aa = Attach {
+                name: a.name.clone(),
+                handle: Handle(our),
+                role: if lib_is_sender { fe2o3_amqp_types::definitions::Role::Receiver } else { fe2o3_amqp_types::definitions::Role::Sender },
+                snd_settle_mode: a.snd_settle_mode.clone(),
+                rcv_settle_mode: a.rcv_settle_mode.clone(),
+                source: None,
+                target: None,
+                unsettled: None,
+                incomplete_unsettled: false,
+                initial_delivery_count: if lib_is_sender { None } else { Some(0) },
+                max_message_size: None,
+                offered_capabilities: None,
+                desired_capabilities: None,
+                properties: None,
+            };
+            peer.send(w.channel, Performative::Attach(aa));
+            peer.send(
+                w.channel,
+                Performative::Detach(Detach {
+                    handle: Handle(our),
+                    closed: true,
+                    error: Some(peer_err("attach refused")),
+                }),
+            );
+            if let Some(l) = peer.links.iter_mut().find(|l| l.lib_handle == a.handle.0 && !l.detached) {
+                l.detached = true;
+            }
+        }
+    }
+}
+
+fn run_history(evs: Vec<Ev>) -> (HistOut, usize, usize) {
+    let scen: Scenario<Obs> = {
+        let evs = evs.clone();
+        Arc::new(move || {
+            let evs = evs.clone();
+            Box::pin(scenario(evs))
+        })
+    };
+    let ex = run_exec(vec![], &RunCfg::none(), &scen);
+    let mut out = HistOut::default();
+    let (mut pend, mut flush) = (0, 0);
+    match ex.out {
+        Some(o) => {
+            out.executed = o.executed;
+            out.fails = o.fails;
+            out.state_keys = o.state_keys;
+            out.trace = o.trace;
+            out.machinery = o.machinery;
+            pend = o.pending_calls;
+            flush = o.flush_checks;
+        }
+        None => {
+            out.executed = evs.len();
+            out.machinery = Some(format!("scenario died: panics {:?} watchdog {}", ex.panics, ex.watchdog));
+        }
+    }
+    if ex.spun {
+        out.fails.push(("spin".into(), "busy loop: some task polled more than 20000 times at one virtual instant".into()));
+    }
+    for p in ex.panics.iter().filter(|p| !p.contains("vcheck/src")) {
+        out.fails.push(("library-task-panic".into(), format!("a library task panicked: {p}")));
+    }
+    (out, pend, flush)
+}
+
+pub fn run(ctx: &Ctx) -> Outcome {
     let mut out = Outcome::new("model_checking");
-    out.machinery_errors.push("check C13 is not built yet".into());
+    if let Some(p) = &ctx.replay {
+        return replay(p, out);
+    }
+    let depth = if ctx.quick() { 3 } else { 4 };
+    let deadline = Instant::now() + Duration::from_secs_f64(ctx.budget_s);
+    let pend = std::sync::atomic::AtomicUsize::new(0);
+    let flush = std::sync::atomic::AtomicUsize::new(0);
+    let st = search(ALPHABET.len(), depth, ctx.threads, deadline, |h| {
+        let (o, p, f) = run_history(h.iter().map(|i| ALPHABET[*i]).collect());
+        pend.fetch_add(p, std::sync::atomic::Ordering::Relaxed);
+        flush.fetch_add(f, std::sync::atomic::Ordering::Relaxed);
+        o
+    });
+    for m in &st.machinery {
+        out.machinery_errors.push(m.clone());
+    }
+    for (h, sig, detail, trace) in &st.violations {
+        let evs: Vec<String> = h.iter().map(|i| format!("{:?}", ALPHABET[*i])).collect();
+        out.violation(sig.clone(), format!("history {:?}: {detail}", evs), json!({"events": h, "event_names": evs, "trace": trace}));
+    }
+    out.set("states", st.distinct_states.max(1));
+    out.set("transitions", st.distinct_transitions.max(1));
+    out.set("traces_validated_against_impl", st.executions);
+    out.set("events_executed", st.events_executed);
+    out.set("calls_observed_pending_while_peer_withholds", pend.load(std::sync::atomic::Ordering::Relaxed) as u64);
+    out.set("flush_obligations_checked", flush.load(std::sync::atomic::Ordering::Relaxed) as u64);
+    out.set("samples", json!(st.sample_traces));
+    out.set("exhaustive", !st.truncated);
+    out.set("bound", format!("histories of depth {depth} over {} events (1 session, 1 sender, 1 receiver)", ALPHABET.len()));
+    out.set("rule", "states = distinct (links attached, session alive/over, peer ended/detached, withheld answers, end sent) at quiescence; every state reached by executing the real link, session and connection engines against the scripted peer");
+    out.assume("the scripted peer acts at quiescent points; 'no later than the application's next operation on that link' is checked after the next local send/detach/close/drop on the link");
+    out
+}
+
+fn replay(p: &std::path::Path, mut out: Outcome) -> Outcome {
+    let s = std::fs::read_to_string(p).unwrap_or_default();
+    let j: serde_json::Value = serde_json::from_str(&s).unwrap_or_default();
+    let r = &j["replay"];
+    let evs: Vec<Ev> = r["events"].as_array().map(|a| a.iter().filter_map(|v| v.as_u64()).map(|i| ALPHABET[i as usize]).collect()).unwrap_or_default();
+    println!("replaying {:?}", evs);
+    let (o, _, _) = run_history(evs);
+    for l in &o.trace {
+        println!("  {l}");
+    }
+    for (s, d) in o.fails {
+        println!("  FAIL {s}: {d}");
+        out.violation(s, d, r.clone());
+    }
+    out.set("states", 1);
+    out.set("transitions", 1);
+    out.set("traces_validated_against_impl", 1);
+    out.set("samples", json!([r]));
     out
 }
